@@ -3449,6 +3449,16 @@ class StateEngine(object):
                 ASL["States"], current_state, force_full_lookup
             )
         if not isinstance(state, dict):  # state should be valid by this point
+            """
+            In a Parallel branch or Map iteration a sibling may already have
+            failed in the same way, in which case this branch has been
+            terminated and must not fail the execution a second time.
+            """
+            if self.branch_has_terminated(
+                "", context, id, ASL.get("TimeoutSeconds", self.execution_ttl)
+            ):
+                return
+
             message = ("{} attempted a transition to a non-existent "
                        "state \"{}\": Illegal State Machine.").format(
                         execution_arn, current_state
